@@ -140,6 +140,20 @@ func judgeC13(g *GWRun) (vs []monitors.V, checked int) {
 	if !closed {
 		vs = append(vs, monitors.V{Prop: "C13", Sig: "broker-connection-left-open|" + cls, What: "handler returned without closing the broker connection", Seq: causeSeq})
 	}
+	if cause == "client-disconnect" {
+		// the client that disconnects itself gets the reply to its DISCONNECT, at most once - never a second,
+		// unsolicited DISCONNECT from the termination path
+		n := 0
+		for _, it := range items {
+			if it.Seq > causeSeq && it.Kind == world.SNOut && it.SN != nil && it.SN.Type == snref.DISCONNECT {
+				n++
+			}
+		}
+		checked++
+		if n > 1 {
+			vs = append(vs, monitors.V{Prop: "C13", Sig: "client-disconnect-notice|twice|" + cls, What: fmt.Sprintf("the client disconnected itself (state %s) and was sent %d DISCONNECTs", st, n), Seq: causeSeq})
+		}
+	}
 	if cause != "client-disconnect" && st != "dontcare" {
 		checked++
 		want := st == "active" || st == "awake"
